@@ -229,7 +229,7 @@ def _rest(ck, fa, R3, R4, R5, R6):
 
     # ---- R7: a content key is visible only once its bytes are completely written
     from .c08 import check_write_order
-    check_write_order(ck, "C07.R7", only_output=True)
+    ck.run(check_write_order, ck, "C07.R7", only_output=True)
     # ---- R5
     fo = FA(ck, FSDS + ".output")
     opens = [c for c in fo.calls("open")]
@@ -295,7 +295,7 @@ def _rest(ck, fa, R3, R4, R5, R6):
     # the memento's content key survives the metadata codec (split at the last '#')
     from .c11 import check_versioned_key_codec
     ck.rule("C07.R8", "a memento's versioned content key is written as key#version and split at the last '#'", 2)
-    check_versioned_key_codec(ck, "C07.R8")
+    ck.run(check_versioned_key_codec, ck, "C07.R8")
     # ---- R6
     mz = FA(ck, "storage_base.StorageBackendBase.memoize")
     asgs = [s for s in mz.stmts(ast.Assign) if any(A.dotted(t) == "memento.content_key" for t in s.targets)]
